@@ -457,11 +457,59 @@ def registered_before_complete(fn):
     return out
 
 
+def none_sentinel_tested_by_truth(fn):
+    """P9: `first = None` ... `for .. v ..: if not first: first = v` - "not
+    seen yet" is a question about the sentinel (`is None`); asked as a truth
+    test it is also answered yes by every falsy VALUE (0, False, '', [], {}),
+    which is then silently replaced by the next one."""
+    out = []
+    nodes = list(_own_nodes(fn))
+    none_init = {t.id for n in nodes if isinstance(n, ast.Assign) and
+                 isinstance(n.value, ast.Constant) and n.value.value is None
+                 for t in n.targets if isinstance(t, ast.Name)}
+    if not none_init:
+        return out
+    for loop in nodes:
+        if not isinstance(loop, ast.For):
+            continue
+        elems = {x.id for x in ast.walk(loop.target)
+                 if isinstance(x, ast.Name)}
+        for n in ast.walk(loop):
+            if not isinstance(n, ast.If):
+                continue
+            t = n.test
+            var = None
+            if isinstance(t, ast.UnaryOp) and isinstance(t.op, ast.Not) and \
+                    isinstance(t.operand, ast.Name):
+                var, branch = t.operand.id, n.body
+            elif isinstance(t, ast.Name):
+                var, branch = t.id, n.orelse
+            if var not in none_init:
+                continue
+            # the branch taken when "nothing yet" stores a loop element in it
+            stores = [a for b in branch for a in ast.walk(b)
+                      if isinstance(a, ast.Assign) and any(
+                          isinstance(x, ast.Name) and x.id == var
+                          for x in a.targets) and
+                      isinstance(a.value, ast.Name) and a.value.id in elems]
+            if stores:
+                out.append((n.lineno, 'none-sentinel-tested-by-truth:%s' % var,
+                            '%s starts as None and is given an element of '
+                            'the sequence (line %d), but "not seen yet" is '
+                            'tested by truth value (line %d): a first element '
+                            'that is falsy - 0, False, an empty string or '
+                            'container - counts as not seen and is replaced '
+                            'by the next one' % (var, stores[0].lineno,
+                                                 n.lineno)))
+    return out
+
+
 def scan_function(fn, shared=()):
     return search_loop_variable(fn) + stale_snapshot(fn) + \
         one_object_two_names(fn) + \
         shallow_copy_of_shared_mutables(fn, shared) + shared_deferred(fn) + \
-        temporary_entry_released(fn) + registered_before_complete(fn)
+        temporary_entry_released(fn) + registered_before_complete(fn) + \
+        none_sentinel_tested_by_truth(fn)
 
 
 def pitfall_rules(ctx, pid):
@@ -543,6 +591,8 @@ def _control():
             'introspect_coalesced': {'shared-deferred'},
             'introspect_coalesced_direct': {'shared-deferred'},
             'guarded_work': {'temporary-entry-released'},
+            'first_value_by_truth': {'none-sentinel-tested-by-truth'},
+            'first_value_by_identity': set(),
             '__init__': {'registered-before-complete'},
             'guarded_work_finally': set(),
             'introspect_fanout': set(),
